@@ -429,13 +429,24 @@ func (l *Leaf) SQL() string {
 	var items []string
 	for _, ci := range l.Cols {
 		n := l.T.Cols[ci].Name
-		items = append(items, l.Inner+"."+n+" AS "+n)
+		items = append(items, l.Inner+"."+n+" AS "+l.OutName(n))
 	}
 	s := "(SELECT " + strings.Join(items, ", ") + " FROM " + l.T.File + " " + l.Inner
 	if len(l.SubWhere) > 0 {
 		s += " WHERE " + conjSQL(l.SubWhere)
 	}
 	return s + ") " + l.Alias
+}
+// OutName is the name under which column n of the file is visible outside the leaf. Subquery
+// sides rename their columns (alias-prefixed): octosql's typechecker confuses the unique name of
+// an unqualified subquery column `k1` with a same-named column `b.k1` of the other join side
+// and then rejects outer joins ("must each reference only one of the input tables") and does not
+// extract inner-join keys.
+func (l *Leaf) OutName(n string) string {
+	if l.Sub {
+		return l.Alias + "q" + n
+	}
+	return n
 }
 func (l *Leaf) SlotSet(m map[int]bool) { m[l.Slot] = true }
 
